@@ -138,6 +138,10 @@ Fixpoint nm_get (nm : list (N * N)) (a : N) : option N :=
 Definition cur (st : N -> N) (nm : list (N * N)) (a : N) : N :=
   match nm_get nm a with Some v => v | None => st a end.
 
+(* nonces are Go uint64: expectedNonce + 1 wraps around at 2^64 *)
+Definition two64 : N := 18446744073709551616.
+Definition succ64 (n : N) : N := (n + 1) mod two64.
+
 (* the loop of checkNonce over the sorted list; [n] = len(packedTxs) so far *)
 Fixpoint walk (st : N -> N) (cap : N) (l : list tx) (nm : list (N * N)) (n : N) : list tx :=
   match l with
@@ -148,7 +152,7 @@ Fixpoint walk (st : N -> N) (cap : N) (l : list tx) (nm : list (N * N)) (n : N) 
       let nm1 := match nm_get nm (tsrc t) with Some _ => nm | None => (tsrc t, e) :: nm end in
       if e <? tnonce t then walk st cap r nm1 n                       (* nonce too high: skip *)
       else
-        let nm2 := if e =? tnonce t then (tsrc t, e + 1) :: nm1 else nm1 in
+        let nm2 := if e =? tnonce t then (tsrc t, succ64 e) :: nm1 else nm1 in
         t :: (if cap <=? n + 1 then [] else walk st cap r nm2 (n + 1)) (* too low / repeated: kept *)
     else t :: (if cap <=? n + 1 then [] else walk st cap r nm (n + 1))
   end.
